@@ -84,6 +84,52 @@ def tree_with_helpers(F, f, depth=2):
     return out
 
 
+def const_int(F, o):
+    """integer value of a constant operand (literal or named const), else None"""
+    if o["k"] != "const":
+        return None
+    m = re.match(r"^(?:const )?(-?\d+)_[ui](8|16|32|64|128|size)$", str(o.get("v")))
+    if m:
+        return int(m.group(1))
+    if o.get("def"):
+        try:
+            c = F.const(o["def"])
+            m = re.match(r"^(-?\d+)_[ui](8|16|32|64|128|size)$", str(c.get("val")))
+            return int(m.group(1)) if m else None
+        except KeyError:
+            return None
+    return None
+
+
+def unreachable_when(F, f, site_bb, is_subject, values):
+    """Is `site_bb` unreachable whenever the subject quantity takes one of `values`?  Every
+    comparison `subject <op> constant` (either order) is evaluated for the value and the edge
+    not taken is removed; everything else stays non-deterministic.  Idiom-independent lower /
+    upper bound proof (if-chains, range matches, early returns, helpers in the inlined view)."""
+    from .analysis import reachable_fs
+    OPS = {"Eq": lambda a, b: a == b, "Ne": lambda a, b: a != b, "Lt": lambda a, b: a < b,
+           "Le": lambda a, b: a <= b, "Gt": lambda a, b: a > b, "Ge": lambda a, b: a >= b}
+    tests = []
+    for cb, st, ts in cmp_tests(f):
+        a, b = st["rv"]["a"], st["rv"]["b"]
+        ca, cb_ = const_int(F, a), const_int(F, b)
+        if cb_ is not None and a["k"] != "const" and is_subject(a):
+            tests.append((st["rv"]["op"], None, cb_, ts))
+        elif ca is not None and b["k"] != "const" and is_subject(b):
+            tests.append((st["rv"]["op"], ca, None, ts))
+    if not tests:
+        return False, 0
+    for v in values:
+        removed = set()
+        for op, ca, cb_, ts in tests:
+            truth = OPS[op](v, cb_) if ca is None else OPS[op](ca, v)
+            for t in ts:
+                removed.update(t.failure if truth else t.success)
+        if site_bb in reachable_fs(f, 0, removed_edges=removed):
+            return False, len(tests)
+    return True, len(tests)
+
+
 def private_fields(F, rep, adt_path, why):
     """Type-level fact (replaces a compile-fail witness): no field of the ADT is nameable
     outside its defining crate, so code outside cannot build or alter a value by literal /
